@@ -330,13 +330,59 @@ def getItem (fuel : Nat) (root : Val) (xp : Str) : Val × PyM Val :=
 def get (fuel : Nat) (root : Val) (xp : Str) (dflt : Val) : Val × PyM Val :=
   getCore fuel root xp dflt false true
 
+/-- `_get` called with a **private marker object** as `if_not_found` (what `first` does since fix C04-f): the same
+function as `getCore`, branch by branch, except that the places where `_get` hands its `if_not_found` out answer
+`Option.none` ("the marker came back") and a value of the tree (or the `''` a `?` prefix substitutes for the default)
+answers `some v`.  The marker is a fresh object, so it is no value of `Val`; this is how the model keeps
+`result is _NOT_FOUND` apart from "the path resolved to something equal to the default".
+`Proofs/XPathFirst.lean` (`first_getCoreS_spec`) proves that `getCore … dflt` is `getCoreS` with the marker replaced by
+`dflt`, for every argument: the two transcriptions cannot drift apart. -/
+def getCoreS (fuel : Nat) (root : Val) (xp : Str) (raise : Bool) (rl : Bool) : Val × PyM (Option Val) :=
+  match root with
+  | .dict _ kvs =>
+    let (xp, raise, dflt) :=
+      if startsWith xp ['?'] then (xp.drop 1, false, some emptyStr) else (xp, raise, Option.none)
+    if hasPathChar xp then
+      match findD fuel root [] false true (tokenize xp) (.at []) rl slash with
+      | .error e => if caught e then (if raise then (root, .error e) else (root, .ok dflt)) else (root, .error e)
+      | .ok (root', r) =>
+        if r.isFound then (root', .ok (some r.value))
+        else if raise then (root', .error .IndexError) else (root', .ok dflt)
+    else match lookup xp kvs with
+      | some v => (root, .ok (some v))
+      | Option.none => if raise then (root, .error .KeyError) else (root, .ok dflt)
+  | .list _ xs =>
+    if xp.isEmpty then (root, .ok Option.none) else
+    let (xp, raise, dflt) :=
+      if startsWith xp ['?'] then (xp.drop 1, false, some emptyStr) else (xp, raise, Option.none)
+    if hasPathChar xp then
+      match findL fuel root [] (tokenize xp) (.at []) rl slash with
+      | .error e => if caught e then (if raise then (root, .error e) else (root, .ok dflt)) else (root, .error e)
+      | .ok (root', r) =>
+        if r.isFound then (root', .ok (some r.value))
+        else if raise then (root', .error .IndexError) else (root', .ok dflt)
+    else
+      match n0eval xp with
+      | .error e => (root, .error e)
+      | .ok (.int i) =>
+        match normIdx i xs.length with
+        | some n => (root, .ok (some (xs.getD n Val.none)))
+        | Option.none => if raise then (root, .error .IndexError) else (root, .ok dflt)
+      | .ok (.str _) => if raise then (root, .error .TypeError) else (root, .ok dflt)
+  | _ => (root, .error .Unsupported)
+
+/-- `first`'s last step: a one-element list is replaced by its element -/
+def unwrap1 : Val → Val
+  | .list _ [x] => x
+  | v => v
+
+/-- `first` (fix C04-f): the lookup runs with the private marker as default; when the marker comes back the caller's
+`if_not_found` is returned **as it is**, only a found value is unwrapped -/
 def first (fuel : Nat) (root : Val) (xp : Str) (dflt : Val) : Val × PyM Val :=
-  match getCore fuel root xp dflt false false with
+  match getCoreS fuel root xp false false with
   | (root', .error e) => (root', .error e)
-  | (root', .ok v) =>
-    match v with
-    | .list _ [x] => (root', .ok x)
-    | v => (root', .ok v)
+  | (root', .ok Option.none) => (root', .ok dflt)
+  | (root', .ok (some v)) => (root', .ok (unwrap1 v))
 
 /-- the final store of `__setitem__` through a parent reference -/
 def storeAt (root : Val) (par : PRef) (ni : Option Str) (v : Val) : PyM Val :=
